@@ -806,6 +806,29 @@ Definition step_preamble (r : raft) (m : message) : res (raft * bool) :=
         end
       else Ok (r, true)).
 
+(* MsgTransferLeader at a leader, naming the leader itself, while a transfer to another node is
+   pending (the branch of stepLeader that aborts the pending transfer and returns) *)
+Definition self_transfer_aborts (r : raft) (m : message) : bool :=
+  match get_progress r (m_from m) with
+  | Some pr =>
+      negb (pr_is_learner pr) && negb (N.eqb (r_lead_transferee r) NoneId) &&
+      negb (N.eqb (r_lead_transferee r) (m_from m)) && N.eqb (m_from m) (r_id r)
+  | None => false
+  end.
+
+(* MsgTransferLeader: the role's handler; at a leader, when the request names the leader itself while
+   another transfer is pending, that one is aborted and the automatic leave of a joint
+   configuration is retried (appliedTo with the current applied index) *)
+Definition step_transfer_leader (r : raft) (m : message) : res (raft * err) :=
+  do x <- match r_state r with
+          | StateFollower => step_follower r m
+          | StateCandidate | StatePreCandidate => step_candidate r m
+          | StateLeader => step_leader r m
+          end;
+  if state_type_eqb (r_state r) StateLeader && self_transfer_aborts r m
+  then do r2 <- applied_to (fst x) (l_applied (r_log (fst x))) 0; Ok (r2, snd x)
+  else Ok x.
+
 (* the type switch of Step *)
 Definition step_dispatch (r : raft) (m : message) : res (raft * err) :=
       match m_type m with
@@ -839,6 +862,7 @@ Definition step_dispatch (r : raft) (m : message) : res (raft * err) :=
           else
             do r <- send r (mkMsg respT (m_from m) 0 (r_term r) 0 0 [] 0 0 None true 0 []);
             Ok (r, ENone)
+      | MsgTransferLeader => step_transfer_leader r m
       | _ =>
           match r_state r with
           | StateFollower => step_follower r m
@@ -878,7 +902,12 @@ Definition tick_heartbeat (r : raft) : res raft :=
                       then do x <- step r (set_from (msg0 MsgCheckQuorum) (r_id r)); Ok (fst x)
                       else Ok r);
              if state_type_eqb (r_state r) StateLeader && negb (N.eqb (r_lead_transferee r) NoneId)
-             then Ok (set_r_lead_transferee r NoneId) else Ok r
+             then
+               (* abortLeaderTransfer, then the retry of the automatic leave of a joint
+                  configuration (appliedTo with the current applied index) *)
+               let r := set_r_lead_transferee r NoneId in
+               applied_to_top r (l_applied (r_log r)) 0
+             else Ok r
            else Ok r);
   if negb (state_type_eqb (r_state r) StateLeader) then Ok r else
   if r_heartbeat_timeout r <=? r_heartbeat_elapsed r then
